@@ -454,7 +454,10 @@ def weave_fn(text, directives, canary=False):
             hm = re.match(r"(\|[^|]*\|)(.*)$", header, re.S)
             if not hm:
                 raise Unsupported(f"bad closure header {header}")
-            if _param_names(orig_params) != _param_names(hm.group(1)):
+            on, dn = _param_names(orig_params), _param_names(hm.group(1))
+            if len(on) == len(dn) and all(a == b or a.startswith("_") for a, b in zip(on, dn)):
+                pass   # an unused (underscore) parameter may take the directive's name
+            elif on != dn:
                 raise AnchorLost(f"lost anchor: closure {n} parameters {orig_params} vs {hm.group(1)}")
             edits.append((toks[ob].start, toks[cb].end, header))
             spec = ("\n" + d.body + "\n") if d.payload else " "
